@@ -689,6 +689,10 @@ def merge_measure_contents(notes, other, measure_start):
 
         else:
             elements = notes[voice]
+            if elements:
+                # insert forward/backup elements where the notes of this voice
+                # do not follow each other directly
+                elements, _ = merge_with_voice(elements, [], elements[0][0])
 
         # backup/forward when switching voices if necessary
         if elements:
